@@ -129,9 +129,35 @@ def observe_after_regridding(c, kind):
     out = pde.observe(u)
     c.holds('observation_lives_on_the_observation_grid', np.shape(out)[0] == len(gobs), note=str(np.shape(out)))
     if c.sym:
-        c.holds('interpolated_from_the_new_solution_grid_to_the_observation_grid', len(Interp.log) == 1 and Interp.log[0][0][0] is gnew and Interp.log[0][2][0] is gobs)
+        # either the interpolant of the NEW grid evaluated on the observation grid, or (the nodes coincide here) the exact restriction
+        interp = len(Interp.log) == 1 and Interp.log[0][0][0] is gnew and Interp.log[0][2][0] is gobs
+        exact = False
+        if not Interp.log:
+            ref = (u if kind == 'steady' else u[:, -1])[::2]
+            o = np.asarray(out).reshape(len(gobs), -1)[:, -1]
+            exact = all(core.T(a).eq(core.T(b)) for a, b in zip(o, ref))
+        c.holds('observed_from_the_new_solution_grid_on_the_observation_grid', bool(interp or exact))
     else:
         c.eq('exact_at_the_coinciding_nodes', np.asarray(out).reshape(len(gobs), -1)[:, -1], (u if kind == 'steady' else u[:, -1])[::2], tol=1e-7)
+
+
+def observe_unsorted_nodes(c):
+    """observation nodes that coincide with solution nodes but are listed in another order (and one twice): entry i of the
+    observation belongs to grid_obs[i]"""
+    n = 7; A, f, _ = _form(c, n)
+    gsol = np.linspace(0, 1, n); idx = [5, 1, 3, 1]; gobs = gsol[idx]
+    pde = SteadyStateLinearPDE(lambda th: (A(th), f(th)), grid_sol=gsol, grid_obs=gobs, linalg_solve=Solver(c))
+    u = c.vec('u', n)
+    Interp.log.clear()
+    out = np.asarray(pde.observe(u))
+    c.holds('one_value_per_observation_node', out.shape == (len(idx),), note=str(out.shape))
+    if c.sym:
+        if Interp.log:
+            c.holds('interpolant_evaluated_on_the_observation_grid_in_its_own_order', Interp.log[0][0][0] is gsol and Interp.log[0][0][1] is u and Interp.log[0][2][0] is gobs)
+        else:
+            c.eq('restriction_in_the_order_of_the_observation_grid', out, u[idx])
+    else:
+        c.eq('entry_i_is_the_solution_at_observation_node_i', out, u[idx], tol=1e-8)
 
 
 def time_dependent(c, method, n=2, K=3, extra=0):
@@ -254,18 +280,20 @@ def jobs(tier):
     q = tier == 'quick'
     F = lambda *n: [f'{P}:{x}' for x in n]
     for extra in (0, 2):
-        J.append(Job(f'SteadyStateLinearPDE.solve:extra_returns={extra}', lambda c, e=extra: steady(c, 2, e), 'Pbox', F('SteadyStateLinearPDE.assemble', 'SteadyStateLinearPDE.solve', 'LinearPDE._solve_linear_system'), extra=_extra))
+        for nn in ((2,) if q else (1, 2)):      # (the native stand-in operator is a function of 2 parameters: singular beyond n = 2)
+          J.append(Job(f'SteadyStateLinearPDE.solve:extra_returns={extra}' + ('' if nn == 2 else f':n={nn}'), lambda c, e=extra, nn=nn: steady(c, nn, e), 'Pbox', F('SteadyStateLinearPDE.assemble', 'SteadyStateLinearPDE.solve', 'LinearPDE._solve_linear_system'), extra=_extra))
     for sg in (True, False):
         for om in (True, False):
             J.append(Job(f'SteadyStateLinearPDE.observe:same_grid={sg}:map={om}', lambda c, sg=sg, om=om: steady_observe(c, 3, sg, om), 'Pbox', F('SteadyStateLinearPDE.observe', 'PDE._compare_grid'), extra=_extra))
     for method in ('forward_euler', 'backward_euler'):
-        for K in ((2, 3) if q else (1, 2, 3, 4)):
-            J.append(Job(f'TimeDependentLinearPDE.solve:{method}:levels={K}', lambda c, m=method, K=K: time_dependent(c, m, 2, K, 1 if method == 'backward_euler' else 0), 'Pbox',
+        for K, nn in (((2, 2), (3, 2)) if q else ((1, 2), (2, 2), (3, 2), (4, 2), (5, 2), (3, 1), (3, 3))):
+            J.append(Job(f'TimeDependentLinearPDE.solve:{method}:levels={K}' + ('' if nn == 2 else f':n={nn}'), lambda c, m=method, K=K, nn=nn: time_dependent(c, m, nn, K, 1 if method == 'backward_euler' else 0), 'Pbox',
                          F('TimeDependentLinearPDE.solve', 'TimeDependentLinearPDE.assemble', 'TimeDependentLinearPDE.assemble_step'), extra=_extra, timeout=600))
         J.append(Job(f'TimeDependentLinearPDE.solve:{method}:step_induction_on_cut_loop', lambda c, m=method: euler_step_induction(c, m), 'Pinf', F('TimeDependentLinearPDE.solve'), extra=_extra))
     for to in ('final', 'all', 'explicit'):
         for sg in (True, False):
             J.append(Job(f'TimeDependentLinearPDE.observe:time_obs={to}:same_grid={sg}', lambda c, to=to, sg=sg: time_observe(c, to, sg, 5, 5, to != 'all'), 'Pbox', F('TimeDependentLinearPDE.observe', 'TimeDependentLinearPDE.__init__'), extra=_extra))
+    J.append(Job('SteadyStateLinearPDE.observe:coinciding_nodes_in_another_order', observe_unsorted_nodes, 'Pbox', F('SteadyStateLinearPDE.observe'), extra=_extra))
     J.append(Job('PDE.grid_setters:flag_invariant', grid_flag_invariant, 'Pbox', F('PDE._compare_grid', 'PDE.grid_sol', 'PDE.grid_obs', 'PDE.grids_equal'), extra=_extra, nnum=1))
     for kind in ('steady', 'time'):
         J.append(Job(f'PDE.observe:after_assigning_a_new_solution_grid:{kind}', lambda c, kind=kind: observe_after_regridding(c, kind), 'Pbox',
